@@ -1276,6 +1276,8 @@ impl CoreRuntime {
                 }
                 // IR intrinsic bookkeeping: align timer metadata with Python intrinsic IRQ handling.
                 if opcode == 0xFE {
+                    // Software interrupt: no hardware source is being served by this frame.
+                    self.timer.delivered_masks.push(0);
                     self.timer.in_interrupt = true;
                     self.timer.irq_pending = false;
                     self.timer.irq_source = Some("IR".to_string());
@@ -1337,11 +1339,18 @@ impl CoreRuntime {
                     let irq_src = self.timer.irq_source.clone();
                     // If irq_source was lost, fall back to the delivered mask stack or live ISR bits.
                     let stack_mask = self.timer.delivered_masks.pop();
-                    let clear_mask = irq_src
-                        .as_deref()
-                        .and_then(src_mask_for_name)
-                        .or(stack_mask)
-                        .or_else(|| {
+                    // Acknowledge the source this handler was entered for (recorded at delivery; a
+                    // software IR records 0 = nothing to acknowledge). Only when no entry was recorded
+                    // fall back to the most recently armed source / live ISR bits.
+                    let clear_mask = match stack_mask {
+                        Some(0) => None,
+                        Some(mask) => Some(mask),
+                        None => irq_src.as_deref().and_then(src_mask_for_name),
+                    };
+                    let clear_mask = if stack_mask.is_some() {
+                        clear_mask
+                    } else {
+                        clear_mask.or_else(|| {
                             self.memory
                                 .read_internal_byte(IMEM_ISR_OFFSET)
                                 .and_then(|isr| {
@@ -1357,7 +1366,8 @@ impl CoreRuntime {
                                         None
                                     }
                                 })
-                        });
+                        })
+                    };
                     self.timer.in_interrupt = false;
                     if irq_src.as_deref().is_some_and(|s| s == "KEY") {
                         self.timer.key_irq_latched = false;
